@@ -146,3 +146,14 @@ package redisemu
 //@ requires !mutated && !bumped && !removedKey
 //@ modifies *
 //@ ensures [C03] rank.zero: old(istype(args["rank"], int64) && unbox(args["rank"], int64) == 0) ==> istype(output.data, respErrorString)
+
+// C18: BITPOS hands the search the value, the range arguments as given, the unit (1 = BIT, 8 = BYTE) and the bit searched for
+//@ func fnBitPos
+//@ prop C18
+//@ safetyprop C13
+//@ requires ctx != nil && ctx.dsc != nil && dscOK(ctx.dsc)
+//@ requires [C08,C16] unlocked: lockMode(ctx.dsc)
+//@ requires !mutated && !bumped && !removedKey
+//@ modifies *
+//@ ensures [C18] bad.bit: old(istype(args["bit"], int64) && unbox(args["bit"], int64) != 0 && unbox(args["bit"], int64) != 1) ==> istype(output.data, respErrorString)
+//@ ensures [C06,C18] readonly: !mutated
